@@ -176,3 +176,11 @@ package compress
 //@   ensures [same-stream] ghost(d.br, "sid") == old(ghost(d.br, "sid")) && d.br == old(d.br)
 //@   modifies d.t, d.delta, d.br.count, ghost(d.br, "rpos")
 //@ end
+
+// constructor used by the series reader (C08): allocates a decompressor over
+// the given reader and consumes its 32-bit header; frame only, ASSUMED (it
+// touches the new objects and the reader it was given).
+//@ func NewDecompressIterator
+//@   assumed
+//@   pure
+//@ end
